@@ -318,6 +318,23 @@ class Prop(core.Prop):
                 if open(out3, 'rb').read() != open(out2, 'rb').read():
                     vs.append(viol('second-write-differs', ('ncf2bpch', 'scaled'), 'writing the same object twice '
                                    'gives different files', **scope))
+                # the same content held as 64-bit floats (what the block-walking reader returns when it scales):
+                # written, it reads back as the same numbers
+                if case['tables'] == 'complete':
+                    with quiet():
+                        f64 = P.pncopen(path, format='bpch2')
+                        out5 = os.path.join(d, 'out5.bpch')
+                        pncgen(f64, out5, format='bpch', verbose=0).close()
+                        fb5 = P.pncopen(out5, format='bpch1')
+                    ntrans += 3
+                    for v in vars_:
+                        kk = key(v)
+                        a = np.asarray(fs.variables[kk][...], 'd')
+                        b = np.asarray(fb5.variables[kk][...], 'd') if kk in fb5.variables.keys() else None
+                        if b is None or a.shape != b.shape or not np.allclose(a, b, rtol=1e-6, atol=0):
+                            vs.append(viol('write-read-data', ('ncf2bpch', 'float64-source'), '%s: %s -> %s' % (
+                                kk, a.ravel()[:3], None if b is None else b.ravel()[:3]), **scope))
+                            break
                 vs += self.check_times(fb, 'bpch1', 'written', scope)
                 vs += self.check_ids(fb, vars_, key, 'bpch1', 'written', scope)
                 for k, v in enumerate(vars_):
